@@ -15,6 +15,15 @@
 //	x[i]                  ↦ Res.bind (GSlice.index zero x i)       panics unless 0 ≤ i < len
 //	x[i] = v              ↦ Res.bind (GSlice.set x i v), x rebound  panics unless 0 ≤ i < len
 //	x[i].f = v            ↦ index, record update, set
+//	clear(P)              ↦ P rebound to GSlice.clear zero P / Slice.clear P (P a variable or field path; it never
+//	                         panics, but the enclosing function is given a result in Res all the same, as
+//	                         with the zeroing loop, so that its signature does not depend on the spelling)
+//	for i := range P { P[i] = zero }
+//	                      ↦ the same as clear(P) — NORMALISATION (clearIdiom): the zeroing loop, the
+//	                         builtin and a helper that consists of the loop all give the same term.  The
+//	                         right-hand side must translate to the zero value of the element type, the
+//	                         index must be the range key itself, the body nothing else; any other loop
+//	                         (other value, other index, other slice) is translated as a loop.
 //	  (the same two for []byte: Slice.index / Slice.set)
 //	x[i:j], len, cap      ↦ GSlice.slice / .len / .cap
 //	make([]T, n[, c])     ↦ GSlice.make zero n c    (zero = the zero value of T, spelled out)
@@ -38,7 +47,11 @@
 // receiver or a local variable.  For []byte the second part's reviewed-by-hand assumption
 // (notes: "aliasing") continues to apply; the third part only adds element reads/writes.
 // (The FOURTH part, code_part4.go, admits slice PARAMETERS as values with out parameters, under
-// the documented no-overlap assumption; topics of the third part are not affected.)
+// the documented no-overlap assumption.  In the topics of the third part a slice parameter is
+// admitted only for a function without receiver and without any other slice parameter — e.g. a
+// helper `zeroEntries(table []hashEntry)` extracted from a method: the callee can reach no second
+// slice, so no overlap assumption is involved; the written slice comes back as an out parameter
+// and is stored in the path that was passed, see promoted3 in code_topics.go.)
 package main
 
 import (
@@ -86,7 +99,15 @@ def set (s : GSlice α) (i : Int) (v : α) : Res (GSlice α) :=
 def make (zero : α) (n c : Int) : Res (GSlice α) :=
   if 0 ≤ n ∧ n ≤ c then Res.ok { arr := List.replicate c.toNat zero, len := n.toNat } else Res.panic
 
+/-- ` + "`clear(s)`" + `: the elements (up to len) become the zero value; length and capacity stay -/
+def clear (zero : α) (s : GSlice α) : GSlice α :=
+  { s with arr := List.replicate (min s.len s.arr.length) zero ++ s.arr.drop s.len }
+
 end GSlice
+
+/-- ` + "`clear(s)`" + ` on a ` + "`[]byte`" + ` -/
+def Slice.clear (s : Slice) : Slice :=
+  { s with arr := List.replicate (min s.len s.arr.length) 0 ++ s.arr.drop s.len }
 
 /-- ` + "`s[i] = v`" + ` on a ` + "`[]byte`" + `: panics unless 0 ≤ i < len(s) -/
 def Slice.set (s : Slice) (i : Int) (v : UInt8) : Res Slice :=
@@ -279,6 +300,98 @@ func (c *codegen) assignElem(lhs ast.Expr, ix *ast.IndexExpr, inner []string, rh
 	return []string{"let " + v.lean + " : " + v.typ.lean() + " := " + update(v.lean, p, nw)}
 }
 
+// clearStmt translates the builtin clear(P) on a slice value (third part).
+func (c *codegen) clearStmt(call *ast.CallExpr, at ast.Node) []string {
+	if !c.phase3 || len(call.Args) != 1 {
+		c.fail(at, "call statement %s", c.src(call))
+	}
+	arg := call.Args[0]
+	root := rootIdent(arg)
+	if root == nil || indexOf(arg) != nil {
+		c.fail(at, "clear(%s) (only of a variable or field path)", c.src(arg))
+	}
+	// like the zeroing loop it stands for, clear makes its function one "that may panic" (result in
+	// Res): the signature of the function must not depend on how the zeroing is spelled
+	c.needMonadic(at)
+	v, p := c.path(arg)
+	st := c.pathType(v, p, at)
+	c.checkElemWrite(root, at)
+	c.checkAliasWrite(v, p, at, "clear of")
+	sl, _ := c.expr(arg, gtype{}, false)
+	var nw string
+	switch st.kind {
+	case kGSlice:
+		nw = "GSlice.clear " + c.zeroTyped(*st.elem, at) + " " + paren(sl)
+	case kBytes:
+		nw = "Slice.clear " + paren(sl)
+	default:
+		c.fail(at, "clear of %s", st)
+	}
+	return []string{"let " + v.lean + " : " + v.typ.lean() + " := " + update(v.lean, p, nw)}
+}
+
+// clearIdiom: `for i := range P { P[i] = zero }` with P a variable or field path of slice type —
+// returns the equivalent call clear(P), or nil (see the header).
+func (c *codegen) clearIdiom(x *ast.RangeStmt) *ast.CallExpr {
+	if !c.phase3 || x.Tok != token.DEFINE || c.lookup("clear") != nil || c.fns[fnKey{"", "clear"}] != nil {
+		return nil
+	}
+	key, ok := x.Key.(*ast.Ident)
+	if !ok || key.Name == "_" {
+		return nil
+	}
+	if x.Value != nil {
+		if id, ok := x.Value.(*ast.Ident); !ok || id.Name != "_" {
+			return nil
+		}
+	}
+	if rootIdent(x.X) == nil || pathOf(x.X) == nil || c.lookup(rootIdent(x.X).Name) == nil || len(x.Body.List) != 1 {
+		return nil
+	}
+	as, ok := x.Body.List[0].(*ast.AssignStmt)
+	if !ok || as.Tok != token.ASSIGN || len(as.Lhs) != 1 || len(as.Rhs) != 1 {
+		return nil
+	}
+	ix, ok := as.Lhs[0].(*ast.IndexExpr)
+	if !ok || c.src(ix.X) != c.src(x.X) || pathOf(ix.X) == nil {
+		return nil
+	}
+	if id, ok := ix.Index.(*ast.Ident); !ok || id.Name != key.Name || key.Name == rootIdent(x.X).Name {
+		return nil
+	}
+	v, p := c.path(x.X)
+	st := c.pathType(v, p, x)
+	var elemT gtype
+	switch st.kind {
+	case kGSlice:
+		elemT = *st.elem
+	case kBytes:
+		elemT = gtype{kind: kU8}
+	default:
+		return nil
+	}
+	// the value: a constant or a composite literal that is the zero value (nothing that reads a variable)
+	switch as.Rhs[0].(type) {
+	case *ast.BasicLit, *ast.CompositeLit:
+	case *ast.Ident:
+		if _, _, isConst := c.cfold(as.Rhs[0]); !isConst {
+			return nil
+		}
+	default:
+		return nil
+	}
+	n := len(c.cur.pre)
+	val, vt := c.expr(as.Rhs[0], elemT, true)
+	if len(c.cur.pre) != n || !vt.eq(elemT) {
+		c.cur.pre = c.cur.pre[:n]
+		return nil
+	}
+	if val != c.zeroOf(elemT, x) && val != c.zeroTyped(elemT, x) {
+		return nil
+	}
+	return &ast.CallExpr{Fun: &ast.Ident{NamePos: x.Pos(), Name: "clear"}, Lparen: x.Pos(), Args: []ast.Expr{x.X}, Rparen: x.End()}
+}
+
 // checkRangeTarget: inside `for … range P` the slice header of P must not change — no
 // assignment to P or to a prefix of P as a whole.
 func (c *codegen) checkRangeTarget(v *varInfo, p []string, at ast.Node) {
@@ -302,6 +415,18 @@ func (c *codegen) checkRangeTarget(v *varInfo, p []string, at ast.Node) {
 func (c *codegen) checkSig3(fd *ast.FuncDecl, sig *fnSig) {
 	for _, p := range sig.params {
 		if c.phase4 && p.typ.kind == kGSlice {
+			if c.strictSliceParams {
+				// a topic of the third part proper (promoted3): no second way to reach a slice
+				n := 0
+				for _, q := range sig.params {
+					if c.containsGSlice(q.typ, fd) || q.typ.kind == kBytes {
+						n++
+					}
+				}
+				if fd.Recv != nil || n != 1 {
+					c.fail(fd, "parameter %s of type %s next to a receiver or another slice parameter (a slice value of the third part may only be passed to a function that can reach no other slice: aliasing)", p.name, p.typ)
+				}
+			}
 			continue // fourth part: a slice parameter is a value; written ones are out parameters (code_part4.go)
 		}
 		if c.containsGSlice(p.typ, fd) {
